@@ -97,11 +97,35 @@ theorem auxEntries_mem : ∀ (es : List (Item × Item)) (aw : List (Nat × Item)
         exact ⟨q, List.mem_cons_of_mem _ hq, e⟩
     · cases h
 
+theorem wfList_mem : ∀ (xs : List Item) (x : Item), wfList xs = true → x ∈ xs → x.wf = true
+  | y :: ys, x, h, hx => by
+    simp only [wfList, Bool.and_eq_true] at h
+    rcases List.mem_cons.mp hx with e | hx
+    · rw [e]; exact h.1
+    · exact wfList_mem ys x h.2 hx
+
+/-- the elements of a well-formed array node are well-formed -/
+theorem wf_of_arrayItems {top : Item} {xs : List Item} (w : top.wf = true) (ha : top.arrayItems? = some xs)
+    (x : Item) (hx : x ∈ xs) : x.wf = true := by
+  cases top with
+  | seq hd ys =>
+    simp only [Item.arrayItems?] at ha; split at ha
+    · cases ha; simp only [Item.wf, Bool.and_eq_true] at w; exact wfList_mem _ x w.2 hx
+    · cases ha
+  | seqIndef m ys =>
+    simp only [Item.arrayItems?] at ha; split at ha
+    · cases ha; simp only [Item.wf, Bool.and_eq_true] at w; exact wfList_mem _ x w.2 hx
+    · cases ha
+  | atom _ => simp [Item.arrayItems?] at ha
+  | str _ _ => simp [Item.arrayItems?] at ha
+  | strIndef _ _ => simp [Item.arrayItems?] at ha
+  | tag _ _ => simp [Item.arrayItems?] at ha
+
 /-- every part `viewBlockItem` returns is a contiguous slice of the block's bytes -/
 theorem view_parts_are_slices (top : Item) (v : BlockView) (h : viewBlockItem top = some v) :
     Slice v.header.encode top.encode ∧ (∀ b ∈ v.bodies, Slice b.encode top.encode) ∧
     (∀ w ∈ v.wits, Slice w.encode top.encode) ∧ (∀ p ∈ v.auxWire, Slice p.2.encode top.encode) ∧
-    (∀ p ∈ v.payloads, Slice p.encode top.encode) := by
+    (∀ p ∈ v.payloads, Slice p.encode top.encode) ∧ (top.wf = true → v.header.wf = true) := by
   unfold viewBlockItem at h
   split at h
   case h_2 => cases h
@@ -116,7 +140,8 @@ theorem view_parts_are_slices (top : Item) (v : BlockView) (h : viewBlockItem to
         case h_2 => cases h
         case h_1 header rest =>
           cases h
-          exact ⟨(slice_arr hparts (by simp)).trans hin, by simp, by simp, by simp, by simp⟩
+          exact ⟨(slice_arr hparts (by simp)).trans hin, by simp, by simp, by simp, by simp,
+            fun w => wf_of_arrayItems (wf_of_arrayItems w htop inner (by simp)) hparts _ (by simp)⟩
       · split at h
         · -- byron main
           split at h
@@ -132,7 +157,8 @@ theorem view_parts_are_slices (top : Item) (v : BlockView) (h : viewBlockItem to
                 have hb : Slice body.encode top.encode := (slice_arr hparts (by simp)).trans hin
                 have ht : Slice txp.encode top.encode := (slice_arr hbody (by simp)).trans hb
                 exact ⟨(slice_arr hparts (by simp)).trans hin, by simp, by simp, by simp,
-                  fun p hp => (slice_arr hps hp).trans ht⟩
+                  fun p hp => (slice_arr hps hp).trans ht,
+                  fun w => wf_of_arrayItems (wf_of_arrayItems w htop inner (by simp)) hparts _ (by simp)⟩
         · -- post-Byron
           split at h
           case h_2 => cases h
@@ -155,7 +181,8 @@ theorem view_parts_are_slices (top : Item) (v : BlockView) (h : viewBlockItem to
                 split at h
                 · cases h
                   exact ⟨hh, fun b hb' => (slice_arr hb hb').trans hbs, fun w hw' => (slice_arr hw hw').trans hws,
-                    hauxmem aw haw, by simp⟩
+                    hauxmem aw haw, by simp,
+                    fun w => wf_of_arrayItems (wf_of_arrayItems w htop inner (by simp)) hparts _ (by simp)⟩
                 · split at h
                   case h_2 => cases h
                   case h_1 xs hxs =>
@@ -164,7 +191,8 @@ theorem view_parts_are_slices (top : Item) (v : BlockView) (h : viewBlockItem to
                     case h_1 ns hns =>
                       cases h
                       exact ⟨hh, fun b hb' => (slice_arr hb hb').trans hbs, fun w hw' => (slice_arr hw hw').trans hws,
-                        hauxmem aw haw, by simp⟩
+                        hauxmem aw haw, by simp,
+                        fun w => wf_of_arrayItems (wf_of_arrayItems w htop inner (by simp)) hparts _ (by simp)⟩
                 · cases h
 
 end PallasVerif.Traverse.Slices
